@@ -38,8 +38,9 @@ def forEach {R S A : Type} (body : S → A → Flow R S) : List A → S → Flow
 methods of BaseART that are translated on their own (`_match_tracking`, `_match_tracking_operator`).
 `C` is the type of the `cache` dictionaries, `P` of the `params` dictionary. -/
 structure Ext (X Wt P C α : Type) where
-  /-- `category_choice(i, w, params) -> (T, cache)`; `none` = NaN -/
-  category_choice : X → Wt → P → Option α × C
+  /-- `category_choice(i, w, params) -> (T, cache)`; `none` = NaN.  The first argument is `self.W`, which the
+  method may read (the Gaussian / Bayesian prior sums the counts stored in all categories) -/
+  category_choice : List Wt → X → Wt → P → Option α × C
   /-- `match_criterion_bin(i, w, params, cache, op) -> (bool, cache)`; `op` is passed as "strict?" -/
   match_criterion_bin : X → Wt → P → C → Bool → Bool × C
   /-- `update(i, w, params, cache) -> w'` -/
@@ -53,7 +54,7 @@ structure Ext (X Wt P C α : Type) where
   /-- the Python value `None` where a cache is expected -/
   noneC : C
 
-/-- the attributes of a `BaseART` instance that `step_fit` reads or writes -/
+/-- the attributes of a `BaseART` instance that the translated methods read or write -/
 structure Self (Wt P : Type) where
   W : List Wt
   /-- `weight_sample_counter_` -/
@@ -61,5 +62,9 @@ structure Self (Wt P : Type) where
   /-- `sample_counter_` -/
   n : Nat
   params : P
+  /-- `labels_` -/
+  labels : List Nat := []
+  /-- `hasattr(self, "W")`: the constructor does not create `W`, the first training call does -/
+  hasW : Bool := true
 
 end Art.Imp
